@@ -807,7 +807,7 @@ fn report(ctx: &Ctx, acc: &mut Acc, c: &Case, v: (String, String), rank: u64) {
 fn part_a(ctx: &Ctx, probe: &[u8]) -> (Acc, Value) {
     use encoding_rs::{BIG5, KOI8_R, SHIFT_JIS, UTF_8};
     let tier = ctx.tier;
-    let medias: Vec<&str> = tier.pick(vec!["text/plain"], vec!["text/plain", "text/html", "application/json"]);
+    let medias: Vec<&str> = tier.pick(vec!["text/plain", "application/json", "x/y"], vec!["text/plain", "text/html", "application/json", "APPLICATION/JSON", "application/xml", "x/y"]);
     let mut cts: Vec<Ct> = vec![Ct::Absent];
     for m in &medias {
         cts.push(Ct::NoParam { media: m.to_string() });
